@@ -193,6 +193,14 @@ pub fn child(args: &Args) -> i32 {
     );
     let mut result = json!({"mode": mode});
     let fnum = |n: &Node| n.shared.store().freezer().map(|f| f.number()).unwrap_or(0);
+    // a pass that takes as long as a real one (thousands of blocks): a seeded delay per block at
+    // hook H4d, i.e. while the freezer's lock is held and readers are queueing behind it
+    if let Ok(ms) = std::env::var("VERIF_SLOW_FREEZE_MS") {
+        vnode::hooks::install();
+        let mut points = BTreeMap::new();
+        points.insert("shared::freeze_before_fetch_block", (2000u64, ms.parse::<u64>().unwrap_or(10) * 1000));
+        vnode::hooks::set_plan(vnode::hooks::DelayPlan { points, seed: 1 });
+    }
     if mode == "build" {
         for b in hist["blocks"].as_array().unwrap() {
             let block = packed::Block::from_compatible_slice(&hex_to_bytes(b.as_str().unwrap())).unwrap().into_view();
@@ -279,6 +287,7 @@ pub fn child(args: &Args) -> i32 {
             let stop = AtomicBool::new(false);
             let reader_out: std::sync::Mutex<Vec<Answers>> = std::sync::Mutex::new(vec![]);
             let mut freeze_err = None;
+            let mut pass_ms = 0u64;
             std::thread::scope(|s| {
                 for _ in 0..2 {
                     let node = &node;
@@ -294,11 +303,14 @@ pub fn child(args: &Args) -> i32 {
                     });
                 }
                 std::thread::sleep(Duration::from_millis(2));
+                let t0 = Instant::now();
                 if let Err(e) = node.shared.verif_freeze_once() {
                     freeze_err = Some(e.to_string());
                 }
+                pass_ms = t0.elapsed().as_millis() as u64;
                 stop.store(true, Ordering::SeqCst);
             });
+            result["freeze_pass_ms"] = json!(pass_ms);
             result["freeze_error"] = json!(freeze_err);
             result["frozen_after_freeze"] = json!(fnum(&node));
             result["answers_after_freeze"] = json!(node_answers(node.shared.store(), q));
@@ -334,7 +346,7 @@ fn run_child_ex(mode: &str, db: &Path, history: &Path, out: &Path, freezer: bool
     let _ = std::fs::remove_file(out);
     let exe = std::env::current_exe().unwrap();
     let mut cmd = Command::new(exe);
-    cmd.args(["freeze-child"]).args(extra);
+    cmd.args(["freeze-child"]).args(extra.iter().filter(|x| !x.starts_with("env:")));
     cmd.arg(format!("mode={mode}"))
         .arg(format!("db={}", db.display()))
         .arg(format!("history={}", history.display()))
@@ -345,6 +357,11 @@ fn run_child_ex(mode: &str, db: &Path, history: &Path, out: &Path, freezer: bool
         .env("VERIF_SCRATCH_BASE", db.parent().unwrap())
         .stdout(std::process::Stdio::null())
         .stderr(std::process::Stdio::piped());
+    for kv in extra.iter().filter(|x| x.starts_with("env:")) {
+        if let Some((k, v)) = kv[4..].split_once('=') {
+            cmd.env(k, v);
+        }
+    }
     if let Some((k, before)) = crash_at {
         cmd.env("VERIF_CRASH_AT", format!("{}:{}", k, if before { "before" } else { "after" }));
     }
@@ -725,7 +742,7 @@ pub fn run(args: &Args) -> i32 {
         "C10",
         "fault_enumeration",
         args,
-        "chains of several tiny epochs with forks at heights that become frozen; answer vectors (block, packed block, header, body, tx hashes, cellbase, uncles, proposals, extension (also via the script data loader), transactions with location, ancestors, live cells) evaluated before freezing, concurrently with freezing, after freezing (warm caches), after restart (cold caches), after a second pass, after a crash at every durable write of the freeze / wipe-out sequence, after a pass cut short by the stop flag plus the completing pass, after a pass that ran out of disk space inside the freezer's appends (ancient/ on a size-limited tmpfs) plus the next pass once space is back plus a restart, and without freezer, each compared with the answers derived from the RefChain model; syscall level (freeze child under strace, page-cache model per file): once a pass (complete or cut short by the stop flag from another thread) has written to the RocksDB WAL, no file under db/ is fsynced while ancient/INDEX or ancient/blk* holds unsynced writes; distinct = (history, stage, crash point) answer vectors judged",
+        "chains of several tiny epochs with forks at heights that become frozen; the regular pass is stretched to several hundred ms (seeded delay per block at hook H4d, freezer lock held) while reader threads queue behind it; answer vectors (block, packed block, header, body, tx hashes, cellbase, uncles, proposals, extension (also via the script data loader), transactions with location, ancestors, live cells) evaluated before freezing, concurrently with freezing, after freezing (warm caches), after restart (cold caches), after a second pass, after a crash at every durable write of the freeze / wipe-out sequence, after a pass cut short by the stop flag plus the completing pass, after a pass that ran out of disk space inside the freezer's appends (ancient/ on a size-limited tmpfs) plus the next pass once space is back plus a restart, and without freezer, each compared with the answers derived from the RefChain model; syscall level (freeze child under strace, page-cache model per file): once a pass (complete or cut short by the stop flag from another thread) has written to the RocksDB WAL, no file under db/ is fsynced while ancient/INDEX or ancient/blk* holds unsynced writes; distinct = (history, stage, crash point) answer vectors judged",
     );
     let mut rng = Rng::new(args.seed ^ 0xF10);
     let scratch = vbase::Scratch::new("freeze");
@@ -810,7 +827,8 @@ pub fn run(args: &Args) -> i32 {
         copy_dir(&db, &pristine);
         // ---- freeze
         let ancient_before = dir_bytes(&db.join("ancient"));
-        let (f, err) = run_child("freeze", &db, &file, &out, true, None);
+        // the regular pass is a slow one (about 12 ms per block with the lock held)
+        let (f, err) = run_child_ex("freeze", &db, &file, &out, true, None, &["env:VERIF_SLOW_FREEZE_MS=20".to_string()]);
         let ancient_after = dir_bytes(&db.join("ancient"));
         let Some(f) = f else {
             r.violation("freeze_pass_failed", format!("freeze child did not complete: {err}"), wit0.clone());
@@ -822,6 +840,10 @@ pub fn run(args: &Args) -> i32 {
         }
         let frozen = f["frozen_after_freeze"].as_u64().unwrap_or(0);
         r.count_n("blocks_frozen", frozen.saturating_sub(1));
+        r.count_n("regular_pass_ms_total", f["freeze_pass_ms"].as_u64().unwrap_or(0));
+        if f["freeze_pass_ms"].as_u64().unwrap_or(0) >= 250 {
+            r.count("regular_passes_longer_than_250_ms_with_readers_queueing");
+        }
         judge(&to_answers(&f["answers_after_open"]), &exp, rc, &side, f["frozen_after_open"].as_u64().unwrap_or(0), "after_restart_before_freeze", &wit0, &mut r);
         judge(&to_answers(&f["answers_after_freeze"]), &exp, rc, &side, frozen, "after_freeze_warm_caches", &wit0, &mut r);
         judge(&to_answers(&f["answers_after_freeze2"]), &exp, rc, &side, f["frozen_after_freeze2"].as_u64().unwrap_or(0), "after_second_pass", &wit0, &mut r);
@@ -944,6 +966,7 @@ pub fn run(args: &Args) -> i32 {
     r.require("histories_with_frozen_blocks", 1);
     r.require("crashes_injected", 2);
     r.require("reader_vectors", 1);
+    r.require("regular_passes_longer_than_250_ms_with_readers_queueing", 1);
     if r.counter("enospc.mount_not_permitted") == 0 {
         r.require("enospc.first_pass_failed_with_an_error", 1);
     } else {
